@@ -510,5 +510,29 @@ func racePass() {
 		}()
 		wg.Wait()
 	}
+	// the periodic refresh goroutine (real ticker, 1 ms) against the simulated governance contract while lookups of
+	// not yet stored indices append from other goroutines
+	for round := 0; round < 20; round++ {
+		c := newFakeChain(5)
+		gsC := make(chan *common.GuardianSet, 4096)
+		gs := guardiansets.NewGuardianSets([]*common.GuardianSet{mkSet(0), mkSet(1)}, c.srv.URL, zap.NewNop(), time.Millisecond, ethcommon.Address{1}, gsC)
+		ctx, cancel := context.WithCancel(context.Background())
+		gs.UpdateGuardianSet(ctx)
+		var wg sync.WaitGroup
+		for _, idx := range []int{2, 3, 4, 5, 1} {
+			idx := idx
+			wg.Add(1)
+			go func() {
+				defer wg.Done()
+				defer func() { recover() }()
+				gs.GetGuardianSet(context.Background(), idx)
+				gs.GetCurrentGuardianSet()
+			}()
+		}
+		wg.Wait()
+		time.Sleep(5 * time.Millisecond) // let a few refresh rounds overlap (race detection only; nothing is judged on time)
+		cancel()
+		c.srv.Close()
+	}
 	os.Exit(0)
 }
